@@ -1426,6 +1426,8 @@ class Bpsec(AbstractApplication):
                 try:
                     clear = bib.copy()
                     clear.remove_payload()
+                    # the copy is the block as it was before encryption
+                    clear.setfieldval('btsd', bytes(plain))
                     clear.add_payload(BlockIntegrityBlock(plain))
                     bib = clear
                 except Exception as err:
